@@ -32,6 +32,7 @@ var checks = map[string]entry{
 	"C13": {"model_checking", props.C13},
 	"C14": {"model_checking", props.C14},
 	"C15": {"fault_enumeration", props.C15},
+	"C16": {"model_checking", props.C16},
 	"C17": {"model_checking", props.C17},
 }
 
